@@ -77,6 +77,11 @@ func (c *Ctx) c16FailuresTravel() {
 	c.Extra["functions_reached_by_fetch_and_store"] = len(fns)
 	// Y16: Fetch prepares its destination with CleanDir (and IsEmpty): a destination that cannot be examined is not a
 	// clean one — the new version would be unpacked over what is there and the mixed tree reported as a success.
+	// Y17: the entry lock of the mutable cache is only as good as the lock implementation's discipline about who may remove
+	// the lock directory: a waiter that gives up must not remove the lock of the client that holds it (two Stores then run in
+	// the critical section: the package of one, the hash of the other — every later Fetch fails although both reported success)
+	c.rule("Y17", "inside the lock implementation only Unlock removes the lock directory and only ReleaseIfStale calls Unlock: a contender that failed to acquire (a time-out) never releases (the obligation C01/R5)", 2)
+	c.lockWhoMayRelease("Y17")
 	c.rule("Y16", "for the functions Fetch/Store can reach: "+absentOnlyWhenAbsentText, 2)
 	c.c04AbsentOnlyWhenAbsent("Y16", func(f *ssa.Function) bool { return R[f] })
 }
